@@ -1418,6 +1418,21 @@ class Context:
             ex.record_query(name, 'unsat', 0.0, trivial=True)
             return 'unsat', None
         timeout_ms = timeout_ms or ex.query_timeout_ms
+        if z3.is_false(goal):
+            # a structurally false claim: any input that drives the code down this path is a counterexample.  Look for one
+            # with the definitions (short limit), else from the preconditions and the path condition alone (the replay on
+            # the real code decides whether it is genuine)
+            r, m, dt = ex.solve(self.all_formulas(), min(timeout_ms, 15000), tactic, fallback=False)
+            if r == 'unknown':
+                r2, m2, dt2 = ex.solve(list(self.pre) + list(self.pc) + self.transcendental_facts(), min(timeout_ms, 15000), tactic, fallback=False)
+                dt += dt2
+                if r2 == 'sat':
+                    r, m = 'sat', m2
+                elif r2 == 'unsat':
+                    r = 'unsat'
+            st.queries[r] += 1
+            ex.record_query(name, r, dt)
+            return r, m
         neg = z3.Not(goal)
         stages = []
         if use_relevance:
